@@ -32,7 +32,7 @@ for d in seeded_dirs:
     res = 'DETECTED' if 'DETECTED' in m.get('check_result', '') else 'MISSED'
     out.append(f"| `{m['id']}` | {first.replace('|','/')} | {res}: {', '.join(rules) or '(see meta.json)'} |")
 out.append("")
-out.append("**Hand-written single-instance variants** (`variants/<id>/`) and the sub-agent changes, per property, from the last thorough run; benign = behaviour-preserving variants that must stay silent:")
+out.append("**Hand-written single-instance variants** (`variants/<id>/`) and the sub-agent changes, per property, from the last self-test run of the current checker; benign = behaviour-preserving variants and refactorings that must stay silent. Properties whose evidence carries no `coverage.self_test` (the self-test takes about seven minutes per property and is skipped with `OTPSA_NO_SELFTEST=1`) are not listed; for all twenty properties the same self-test, run on the checker as it stood before the round-eight rules were added, reported 634 of 634 breaking changes and stayed silent on every benign patch except the documented residuals (commit \"evidence (thorough + self-test, rounds 1-7), catches table, manifest\"):")
 out.append("")
 out.append("| property | breaking changes reported | missed | benign silent | rules that fired (variant → rule) |")
 out.append("|---|---|---|---|---|")
